@@ -113,29 +113,30 @@ Proof. vm_compute. reflexivity. Qed.
 Lemma ex_wf_xlayout : wf_xlayout ex_doc ex_xlayout.
 Proof.
   constructor.
-  - vm_compute. reflexivity.
+  - constructor.
+    + vm_compute. reflexivity.
+    + unfold wide. cbn. lia.
+    + repeat constructor; cbn; try lia; try reflexivity.
+    + vm_compute. reflexivity.
+    + unfold wf_obj_k. cbn [fst snd ex_xlayout xl_id xl_dict xl_lo xl_w0 xl_w1 xl_w2 xl_w xl_parts lo_nw lo_gw lo_w1 lo_w2 lo_w3 lo_w4 lo_w5 lo_sp lo_eol1 lo_eol2].
+      repeat split; try exact xx_spells; try lia; try (vm_compute; reflexivity); try discriminate; try ex_ws.
+      * right. reflexivity.
+      * right. right. left. reflexivity.
+    + exists 3%N. unfold xref_dict_ok. repeat split; try reflexivity.
+    + reflexivity.
+    + reflexivity.
+    + split; [repeat constructor|discriminate].
+    + split; [cbn; lia|]. split; vm_compute; reflexivity.
+    + repeat constructor.
+    + repeat constructor; discriminate.
   - reflexivity.
   - exact (wl_objs _ _ ex_wf_layout).
-  - unfold wide. cbn. lia.
-  - repeat constructor; cbn; try lia; try reflexivity.
-  - vm_compute. reflexivity.
   - vm_compute. repeat constructor; cbn; intuition discriminate.
   - intros e Hin U. vm_compute in Hin. destruct Hin as [<-|[<-|[<-|[]]]]; vm_compute in U; try discriminate; cbn; tauto.
   - intros id Hin. cbn in Hin. destruct Hin as [<-|[<-|[]]].
     + exists (mk_xent 1 0 (XrefTab.XInUse 0)). split; [vm_compute; tauto|]. split; reflexivity.
     + exists (mk_xent 2 0 (XrefTab.XInUse 0)). split; [vm_compute; tauto|]. split; reflexivity.
   - intros e Hin a b. vm_compute in Hin. destruct Hin as [<-|[<-|[<-|[]]]]; discriminate.
-  - unfold wf_obj_k. cbn [fst snd ex_xlayout xl_id xl_dict xl_lo xl_w0 xl_w1 xl_w2 xl_w xl_parts lo_nw lo_gw lo_w1 lo_w2 lo_w3 lo_w4 lo_w5 lo_sp lo_eol1 lo_eol2].
-    repeat split; try exact xx_spells; try lia; try (vm_compute; reflexivity); try discriminate; try ex_ws.
-    + right. reflexivity.
-    + right. right. left. reflexivity.
-  - exists 3%N. unfold xref_dict_ok. repeat split; try reflexivity.
-  - reflexivity.
-  - reflexivity.
-  - split; [repeat constructor|discriminate].
-  - split; [cbn; lia|]. split; vm_compute; reflexivity.
-  - repeat constructor.
-  - repeat constructor; discriminate.
 Qed.
 
 Example ex_xstm_loaded :
